@@ -1,4 +1,4 @@
-// C18 — Visible line parts partition the data exactly            vp-link: core plot
+// C18 — Visible line parts partition the data exactly            vp-link: core plot cxx
 //
 // G: (range | no range) x real value sequence (run-length structured: below / at-min / inside / at-max /
 //    above realised as doubles next to, on and far from the bounds, equal neighbours, runs around the
@@ -256,41 +256,47 @@ static double draw_value(Ctx &c, double mn, double mx) {
   return clampd(x);
 }
 
-static void run_random(Ctx &c) {
-  // range
-  Range rr(0, 1);
-  const Range *r = &rr;
+// range (or none); returns the pointer to pass
+static const Range *draw_range(Ctx &c, Range &rr) {
   switch (c.weighted({12, 2, 1, 1, 1, 1, 2})) {
     case 0: {
       double a = pick_bound(c), b = pick_bound(c);
       rr.min = std::min(a, b); rr.max = std::max(a, b);
       c.label(a == b ? "range:degenerate" : "range:normal");
-      break;
+      return &rr;
     }
-    case 1: rr.min = rr.max = pick_bound(c); c.label("range:degenerate"); break;
+    case 1: rr.min = rr.max = pick_bound(c); c.label("range:degenerate"); return &rr;
     case 2: {
       double a = pick_bound(c), b = pick_bound(c);
       rr.min = std::max(a, b); rr.max = std::min(a, b);
       c.label(a == b ? "range:degenerate" : "range:empty");
-      break;
+      return &rr;
     }
-    case 3: rr.min = -kInf; rr.max = pick_bound(c); c.label("range:open-below"); break;
-    case 4: rr.min = pick_bound(c); rr.max = kInf; c.label("range:open-above"); break;
-    case 5: rr.min = -kInf; rr.max = kInf; c.label("range:unbounded"); break;
-    default: r = 0; c.label("range:none"); break;
+    case 3: rr.min = -kInf; rr.max = pick_bound(c); c.label("range:open-below"); return &rr;
+    case 4: rr.min = pick_bound(c); rr.max = kInf; c.label("range:open-above"); return &rr;
+    case 5: rr.min = -kInf; rr.max = kInf; c.label("range:unbounded"); return &rr;
+    default: c.label("range:none"); return 0;
   }
-  bool longrun = c.chance(6);
+}
+// run-length structured data; `want` > 0 asks for exactly that many points
+static std::vector<double> draw_data(Ctx &c, const Range *r, bool longrun, size_t want = 0) {
   std::vector<double> d;
   double mn = r ? r->min : 0, mx = r ? r->max : 1;
   auto segment = [&](size_t count) {
     double x = (!d.empty() && c.chance(40)) ? d.back() : draw_value(c, mn, mx);
     d.insert(d.end(), count, x);
   };
-  if (longrun) {
+  if (want) {
+    while (d.size() < want) {
+      size_t left = want - d.size();
+      size_t n = left > 64 && c.chance(200) ? c.range(left > 70000 ? left - 70000 : 1, left) : c.weighted({12, 3, 1}) + 1;
+      segment(std::min(n, left));
+    }
+  } else if (longrun) {
     c.label("data:long-run");
     for (size_t n = c.pick(4); n; --n) segment(c.range(1, 3));
     size_t pre = d.size();
-    size_t big = (size_t)((long)65535 - (long)pre + (long)c.range(0, 8) - 4);
+    size_t big = (size_t)((long)(c.chance(80) ? 65533 : 65535) - (long)pre + (long)c.range(0, 8) - 4);  // 65533: chunk size of linepart::array::set
     segment(big);
     for (size_t n = c.pick(5); n; --n) segment(c.range(1, 3));
     if (c.chance(64)) segment(65535 + c.range(0, 4) - 2);
@@ -298,13 +304,77 @@ static void run_random(Ctx &c) {
     size_t segs = 0;
     while (c.more() && segs++ < 40) segment(c.weighted({12, 3, 1}) + 1);
   }
+  return d;
+}
+
+static void run_random(Ctx &c) {
+  Range rr(0, 1);
+  const Range *r = draw_range(c, rr);
+  bool longrun = c.chance(6);
   long lenmode = 0;
-  switch (c.weighted({10, 3, 2})) {
+  switch (c.weighted({8, 3, 3})) {
     case 0: lenmode = 0; break;
     case 1: lenmode = longrun ? (long)c.near({65534, 65535, 65536}, 70000) : (long)c.range(1, 8); if (lenmode < 1) lenmode = 1; c.label("len:chunked"); break;
     default: lenmode = longrun ? 0 : -1; if (lenmode) c.label("len:drawn"); break;
   }
-  run_sequence(c, d, r, lenmode, c.flip());
+  bool join_every = c.flip();
+  std::vector<double> d = draw_data(c, r, longrun);
+  run_sequence(c, d, r, lenmode, join_every);
+}
+
+// ---- C++ consumer: linepart::array::set(N) + apply(transform, dim, data) as polyline::set does it
+struct RangeTransform : public transform {
+  std::vector<const Range *> r;
+  int dimensions() const override { return (int)r.size(); }
+  linepart part(unsigned dim, const double *from, int len) const override {
+    linepart lp;
+    mpt_linepart_linear(&lp, from, (size_t)len, r[dim]);
+    return lp;
+  }
+};
+static void run_cxx_apply(Ctx &c) {
+  int dims = c.chance(64) ? 2 : 1;
+  Range rr[2] = {Range(0, 1), Range(0, 1)};
+  RangeTransform tr;
+  std::vector<double> d[2];
+  bool longrun = c.chance(10);
+  for (int i = 0; i < dims; i++) {
+    tr.r.push_back(draw_range(c, rr[i]));
+    d[i] = draw_data(c, tr.r[i], longrun, i ? d[0].size() : 0);
+  }
+  size_t N = d[0].size();
+  if (!N) return;
+  linepart::array vis;
+  VP_CHECK(c, vis.set((long)N), "cxx-set-sum", "set(%zu) failed", N);
+  for (int i = 0; i < dims; i++) {
+    if (c.verbose()) {
+      if (tr.r[i]) c.logf("dim %d: range [%.17g, %.17g] N=%zu", i, tr.r[i]->min, tr.r[i]->max, N);
+      else c.logf("dim %d: no range N=%zu", i, N);
+      for (size_t k = 0, shown = 0; k < N && shown < 120; k++)
+        if (k < 12 || k + 12 >= N || d[i][k] != d[i][k - 1] || (k + 1 < N && d[i][k] != d[i][k + 1])) { c.logf("  [%zu] %.17g %s", k, d[i][k], cls(d[i][k], tr.r[i])); ++shown; }
+    }
+    Slice s(d[i].data(), N);
+    bool ok = vis.apply(tr, i, span<const double>(s.p, (long)N));
+    VP_CHECK(c, ok, "cxx-apply-refused", "linepart::array::apply(dim %d, %zu points) failed", i, N);
+    std::vector<linepart> parts(vis.begin(), vis.end());
+    for (size_t k = 0; k < parts.size() && k < 64; k++) c.logf("  after dim %d: part %zu raw %u usr %u cut %u trim %u", i, k, parts[k].raw, parts[k].usr, parts[k]._cut, parts[k]._trim);
+    if (i == 0) {
+      check_parts(c, "cxx-apply", d[0], tr.r[0], parts);
+    } else {
+      // several coordinates: only the statement about the points covered is checked (the fractions of
+      // different dimensions are merged heuristically by the library)
+      size_t off = 0;
+      for (size_t k = 0; k < parts.size(); k++) {
+        VP_CHECK(c, off + parts[k].usr <= N, "window-beyond-data", "cxx-apply dim %d part %zu at %zu: usr %u runs past the %zu points", i, k, off, parts[k].usr, N);
+        off += parts[k].raw;
+      }
+      VP_CHECK(c, off == N, "raw-sum", "cxx-apply dim %d: the parts cover %zu of %zu points", i, off, N);
+    }
+    c.count("cxx-apply:parts", parts.size());
+    for (const linepart &lp : parts) if (lp._cut || lp._trim) { c.label("cxx-apply:crossing"); c.nontrivial(); break; }
+  }
+  c.label(dims == 2 ? "cxx-apply:2-dim" : "cxx-apply:1-dim");
+  if (N > 65533) { c.label("cxx-apply:multi-chunk"); c.nontrivial(); }
 }
 
 // ---- enumerated: sequences over {below, at-min, inside, at-max, above} for the range [1,3]
@@ -403,8 +473,36 @@ static void run_code(Ctx &c) {
   }
 }
 
+// ---- C++ linepart::array::set(len): initial parts for `len` points (polyline::set starts from these)
+static void run_cxx_set(Ctx &c) {
+  long len = (long)c.near({0, 1, 2, 65532, 65533, 65534, 65535, 65536, 131065, 131066, 131067, 196599}, 400000);
+  linepart::array a;
+  bool ok = a.set(len);
+  c.logf("linepart::array::set(%ld) -> %d, %ld parts, raw %ld usr %ld", len, ok, (long)a.length(), a.length_raw(), a.length_user());
+  if (!ok) { c.label("cxx-set:refused"); return; }
+  for (int pass = 0; pass < 2; pass++) {
+    long sr = 0, su = 0, n = a.length();
+    const linepart *lp = a.begin();
+    for (long i = 0; i < n; i++) {
+      VP_CHECK(c, lp[i].raw >= 1, "cxx-set-empty-part", "set(%ld)%s: part %ld of %ld covers no point", len, pass ? "+set(-1)" : "", i, n);
+      VP_CHECK(c, !lp[i]._cut && !lp[i]._trim, "cxx-set-fraction", "set(%ld): part %ld has cut %u trim %u", len, i, lp[i]._cut, lp[i]._trim);
+      sr += lp[i].raw; su += lp[i].usr;
+    }
+    VP_CHECK(c, sr == len && su == len, "cxx-set-sum", "set(%ld)%s: parts cover raw %ld usr %ld", len, pass ? "+set(-1)" : "", sr, su);
+    VP_CHECK(c, a.length_raw() == len && a.length_user() == len, "cxx-set-sum", "set(%ld): length_raw %ld length_user %ld", len, a.length_raw(), a.length_user());
+    if (pass || !c.flip()) break;
+    ok = a.set(-1);  // re-derive from the points the existing parts cover
+    VP_CHECK(c, ok, "cxx-set-sum", "set(-1) after set(%ld) failed", len);
+    c.label("cxx-set:rederive");
+  }
+  c.label("cxx-set");
+  if (len > 65533) { c.label("cxx-set:multi-part"); c.nontrivial(); }
+}
+
 static void run(Ctx &c) {
   uint8_t sel = c.u8();
+  if (sel >= 206 && sel < 216) return run_cxx_set(c);
+  if (sel >= 176 && sel < 206) return run_cxx_apply(c);
   if (sel == 0xff) return run_alphabet(c);
   if (sel == 0xfe) return run_longenum(c);
   if (sel >= 236) return run_code(c);
